@@ -396,6 +396,11 @@ class PeerConnection:
         return f"<PeerConnection({self.ident}, {self.node_name}>"
 
     def __dispatch_message(self, msg: _AnyMessageType):
+        if self.state in (PEER_CONNECTING, PEER_CLOSING, PEER_CLOSED):
+            self.logger.warning(
+                f"cannot process message right now, connection is not "
+                f"established or is closing, ignoring")
+            return
         if self.state == PEER_CONNECTED:
             if msg.header.command_code != constants.CMD_CAPABILITIES_EXCHANGE:
                 self.logger.warning(
